@@ -1,6 +1,6 @@
 //! C20 — serialized forms deserialize to the same value (feature `serde`). Shape P.
 use ::serde::{Deserialize, Serialize};
-use chrono::{DateTime, FixedOffset, Month, NaiveDate, NaiveDateTime, NaiveTime, TimeDelta, TimeZone, Utc, Weekday};
+use chrono::{DateTime, FixedOffset, Local, Month, NaiveDate, NaiveDateTime, NaiveTime, TimeDelta, TimeZone, Utc, Weekday};
 use chrono_mc::core::*;
 use chrono_mc::lattice::*;
 use chrono_mc::refcal::*;
@@ -280,6 +280,23 @@ fn plain_types(acc: &mut Acc, z: i64, times: &[(u32, u32)], offs: &[i32]) {
         }
         let u: DateTime<Utc> = Utc.from_utc_datetime(&ndt);
         rt(acc, "DateTime<Utc>", &u, |x| x.naive_utc());
+        if (-261_000..=261_000).contains(&civil_from_days(z).0) {
+            // the third zone type (whatever zone this process runs in): the instant survives, and the text it writes
+            // reads back as the same instant in the other two types
+            let l: DateTime<Local> = u.with_timezone(&Local);
+            // (a local-mean-time offset with seconds is the listed known finding, judged on DateTime<FixedOffset>)
+            if chrono::Offset::fix(l.offset()).local_minus_utc() % 60 == 0 {
+                rt(acc, "DateTime<Local>", &l, |x| x.naive_utc());
+                acc.transitions += 1;
+                if let Ok(Ok(s)) = guard(|| serde_json::to_string(&l)) {
+                    let a = guard(|| serde_json::from_str::<DateTime<Utc>>(&s).map(|x| x.naive_utc()));
+                    let b = guard(|| serde_json::from_str::<DateTime<FixedOffset>>(&s).map(|x| x.naive_utc()));
+                    if !matches!((&a, &b), (Ok(Ok(x)), Ok(Ok(y))) if *x == ndt && *y == ndt) {
+                        acc.violation("DateTime<Local>:text-read-as-other-zone-types", format!("serde_json::from_str::<DateTime<Utc>> / <DateTime<FixedOffset>>({:?})", s), format!("{:?}", ndt), format!("{:?} / {:?}", a, b));
+                    }
+                }
+            }
+        }
         for &o in offs {
             let fo = FixedOffset::east_opt(o).unwrap();
             let dt: DateTime<FixedOffset> = fo.from_utc_datetime(&ndt);
